@@ -54,6 +54,20 @@ def main():
         observe(w, 'process: exception class whose constructor needs arguments', viol, obs)
         return True
 
+    def proc_badexc_polled():
+        # the same ending, observed through is_alive() polling only (wait() would receive - and handle - the final message itself)
+        w = ProcessWorker(T.raise_needs_args)
+        t0 = time.time()
+        while w.is_alive() and time.time() - t0 < 10:
+            time.sleep(0.02)
+        observe(w, 'process: exception class whose constructor needs arguments, death observed by polling is_alive()', viol, obs)
+        from pyworkers.persistent_process import PersistentProcessWorker
+        pw = PersistentProcessWorker(T.raise_needs_args)
+        pw.enqueue(1)
+        pw.wait(10)
+        observe(pw, 'persistent process: exception class whose constructor needs arguments', viol, obs)
+        return True
+
     def proc_killed_midsend():
         w = ProcessWorker(T.big_result)
         time.sleep(1.0)                   # the child is now blocked writing 1 MiB into the 64 KiB pipe
@@ -77,7 +91,7 @@ def main():
                 break
         return True
 
-    for fn in (proc_badexc, proc_killed_midsend, proc_polled):
+    for fn in (proc_badexc, proc_badexc_polled, proc_killed_midsend, proc_polled):
         if not guarded(fn):
             viol.append(f'{fn.__name__}: parent blocked')
     server = spawn_server(('127.0.0.1', 0))
